@@ -909,7 +909,25 @@ fn emit_all(tcx: TyCtxt<'_>) {
         // MIR
         // Preferred: `mir_promoted` (natural CFG: coroutines still have Yield terminators,
         // drops not yet elaborated). Fallbacks are flagged.
-        let (promoted_steal, _) = tcx.mir_promoted(ldid);
+        let (promoted_steal, promoted_bodies) = tcx.mir_promoted(ldid);
+        // constants mentioned by each promoted body (so that `promoted[N]` can be resolved)
+        let mut prom_json: Vec<String> = Vec::new();
+        if !promoted_bodies.is_stolen() {
+            let pb = promoted_bodies.borrow();
+            for body in pb.iter() {
+                let mut cs: Vec<String> = Vec::new();
+                for bbd in body.basic_blocks.iter() {
+                    for st in &bbd.statements {
+                        if let StatementKind::Assign(bx) = &st.kind {
+                            let d = with_no_trimmed_paths!(format!("{:?}", bx.1));
+                            let short: String = d.chars().take(400).collect();
+                            cs.push(js(&short));
+                        }
+                    }
+                }
+                prom_json.push(jlist(&cs));
+            }
+        }
         let steal2;
         let (body_ref, fallback): (&Body<'_>, u8);
         let guard;
@@ -968,7 +986,7 @@ fn emit_all(tcx: TyCtxt<'_>) {
             jlist(&reads),
             jlist(&writes)
         );
-        let _ = writeln!(out, "{{\"k\":\"mir\",\"path\":{},{}}}", js(&path), mir_json);
+        let _ = writeln!(out, "{{\"k\":\"mir\",\"path\":{},{},\"prom\":{}}}", js(&path), mir_json, jlist(&prom_json));
 
         // HIR arms
         let typeck = tcx.typeck(ldid);
